@@ -102,7 +102,7 @@ def r1_escape(ctx):
         arms[flat(show_pat(a["pat"])) + ("if" + flat(show(a["guard"])) if a.get("guard") else "")] = flat(show(a["body"]))
     need = {"'\"'": 'buff.push_str("\\\\\\"")', "'\\\\'": 'buff.push_str("\\\\\\\\")'}
     for k, w in need.items():
-        if arms.get(k) == w:
+        if same(arms.get(k) or "", w):
             r.inst("push_js_str %s" % k, w)
         else:
             r.viol("R1:push_js_str#%s" % k, "character %s is not escaped as %s (arm: %s)" % (k, w, arms.get(k)), file=fn.file, line=fn.line)
